@@ -24,7 +24,14 @@
 
 void chk_error (const char *kind, const char *fmt, ...); /* defined by the driver */
 
-typedef struct chk_ent { void *p; size_t size; int state; /*0 empty 1 live 2 freed*/ } chk_ent;
+#ifdef CHK_BT
+#include <execinfo.h>
+#endif
+typedef struct chk_ent { void *p; size_t size; int state; /*0 empty 1 live 2 freed*/
+#ifdef CHK_BT
+  void *bt[10]; int nbt;
+#endif
+} chk_ent;
 typedef struct chk_state {
   chk_ent *tab; size_t cap, n_used;
   size_t live_blocks, live_bytes, n_malloc, n_calloc, n_realloc, n_free, peak_bytes;
@@ -52,6 +59,9 @@ static inline void chk_enter (chk_state *s, void *p, size_t size) {
   size_t i = chk_slot (s, p);
   if (s->tab[i].state == 0) s->n_used++;
   s->tab[i].p = p; s->tab[i].size = size; s->tab[i].state = 1;
+#ifdef CHK_BT
+  s->tab[i].nbt = backtrace (s->tab[i].bt, 10);
+#endif
   s->live_blocks++; s->live_bytes += size; if (s->live_bytes > s->peak_bytes) s->peak_bytes = s->live_bytes;
 }
 static inline void *chk_malloc (size_t size, void *ud) {
